@@ -1248,7 +1248,9 @@ def _tn_noise(st):
     if isinstance(st, ast.If) and not st.orelse and dump(st.test) == "Attribute(value=Name(id='column'), attr='u')":
         return all(_tn_noise(b) for b in st.body)
     if isinstance(st, ast.If) and dump(st.test) == "Name(id='verbose')" and not st.orelse:
-        # prints and the fabrication-time estimate
+        # prints only: nothing may be stored under `if verbose` (C09: the estimate must not depend on the verbosity of this or an earlier export)
+        if any(isinstance(n, (ast.Attribute, ast.Subscript, ast.Name)) and isinstance(n.ctx, (ast.Store, ast.Del)) for n in ast.walk(st)):
+            raise Unsupported('something is stored under `if verbose`')
         return not any(isinstance(n, ast.Call) and isinstance(n.func, ast.Attribute) and n.func.attr in ('mkdir', 'export_array2d', 'load_program')
                        for n in ast.walk(st))
     if isinstance(st, ast.Assign) and len(st.targets) == 1:
@@ -2466,12 +2468,15 @@ def _s_wn(tr, s, rest, env, tail):
     if isinstance(s, ast.If) and dump(s.test) == "Name(id='verbose')" and not s.orelse:
         if any(isinstance(n, ast.Call) and isinstance(n.func, ast.Name) and n.func.id in ('PGMCompiler', 'open') for n in ast.walk(s)):
             raise Unsupported('a file written under `if verbose`')
-        return tr.T(rest, env, tail)          # prints and the fabrication-time attribute
+        if any(isinstance(n, (ast.Attribute, ast.Subscript, ast.Name)) and isinstance(n.ctx, (ast.Store, ast.Del)) for n in ast.walk(s)):
+            raise Unsupported('something is stored under `if verbose` (the estimate must not depend on the verbosity: C09)')
+        return tr.T(rest, env, tail)          # prints only
     if d == "Expr(value=Call(func=Attribute(value=Attribute(value=Name(id='self'), attr='_instructions'), attr='clear'), args=[], keywords=[]))":
         return tr.T(rest, env, tail)
-    if d == "Assign(targets=[Attribute(value=Name(id='self'), attr='_total_dwell_time')], value=Constant(value=0.0))" or re.fullmatch(
-            r"Assign\(targets=\[Attribute\(value=Name\(id='self'\), attr='_fabtime'\)\], value=Name\(id='_\w+_fab_time'\)\)", d):
-        return tr.T(rest, env, tail)          # the writer's own (unused) compiler state; the time estimate is C12's subject
+    if d == "Assign(targets=[Attribute(value=Name(id='self'), attr='_total_dwell_time')], value=Constant(value=0.0))":
+        return tr.T(rest, env, tail)          # the writer's own (unused) compiler state
+    if re.fullmatch(r"Assign\(targets=\[Attribute\(value=Name\(id='self'\), attr='_fabtime'\)\], value=Name\(id='_\w+_fab_time'\)\)", d):
+        return f'wemit WFab ;;; {tr.T(rest, env, tail)}'      # the estimate of this export is stored (its value: C12's subject)
     return None
 
 
@@ -2547,6 +2552,65 @@ def translate_repeat(src_dir: str) -> str:
         METHODS, CFG_ATTRS, STATE_ATTRS, ORACLES, CFG_TYPE, LOCAL_ELT, EXTRA_PARAMS, MONAD, EXPR_HOOKS, STMT_SKIP, RECEIVERS, STMT_HOOKS = saved
     return ''.join(out)
 
+# ---- Trench.toolpath, length view (C09): what the generator leaves in self._wall_length / self._floor_length
+def _h_rt_hatch(tr, e, env):
+    r = _h_hatch(tr, e, env)
+    if r is not None:
+        pn = cname(e.args[0].func.value.id)
+        v = env.fresh('hatching')
+        return [(v, f'(rt_zigzag G {pn})')], v
+
+
+def _s_rt(tr, s, rest, env, tail):
+    d = dump(s)
+    if d == "Assign(targets=[Attribute(value=Name(id='self'), attr='_wall_length')], value=Attribute(value=Attribute(value=Name(id='self'), attr='block'), attr='length'))":
+        return f'rt_set_wall (LLen (cfg_block c)) ;;; {tr.T(rest, env, tail)}'
+    if (isinstance(s, ast.Assign) and len(s.targets) == 1 and dump(s.targets[0]) == "Attribute(value=Name(id='self'), attr='_floor_length')"
+            and isinstance(s.value, ast.Constant) and isinstance(s.value.value, float)):
+        return f'rt_set_floor (LConst {cq(s.value.value)}) ;;; {tr.T(rest, env, tail)}'
+    m = re.fullmatch(r"AugAssign\(target=Attribute\(value=Name\(id='self'\), attr='_floor_length'\), op=Add\(\), value=Attribute\(value=Name\(id='(\w+)'\), attr='length'\)\)", d)
+    if m and m.group(1) != 'self':
+        return f'rt_add_floor (LLen {cname(m.group(1))}) ;;; {tr.T(rest, env, tail)}'
+    for n in ast.walk(s) if not isinstance(s, (ast.For, ast.If, ast.While, ast.With, ast.Try)) else []:
+        if isinstance(n, ast.Attribute) and n.attr in ('_floor_length', '_wall_length') and isinstance(n.ctx, (ast.Store, ast.Del)):
+            raise Unsupported(f'store to self.{n.attr}: {d[:160]}')
+    return None
+
+
+def translate_lengths(src_dir: str) -> str:
+    global METHODS, CFG_ATTRS, STATE_ATTRS, ORACLES, CFG_TYPE, LOCAL_ELT, EXTRA_PARAMS, MONAD, EXPR_HOOKS, STMT_SKIP, RECEIVERS, STMT_HOOKS
+    saved = (METHODS, CFG_ATTRS, STATE_ATTRS, ORACLES, CFG_TYPE, LOCAL_ELT, EXTRA_PARAMS, MONAD, EXPR_HOOKS, STMT_SKIP, RECEIVERS, STMT_HOOKS)
+    out = [PURE_PREAMBLE % ('trench.py', ' Trench.Toolpath', 'TrState RtState')]
+    try:
+        mod = ast.parse(pathlib.Path(src_dir, 'trench.py').read_text())
+        cls = [n for n in mod.body if isinstance(n, ast.ClassDef) and n.name == 'Trench']
+        if len(cls) != 1:
+            raise Unsupported('class Trench not found in trench.py')
+        # outside toolpath the two lengths are stored by __init__ (constants) and by zigzag (`self._floor_length += <expr>`, the accumulator LZig) only
+        for fn in cls[0].body:
+            if isinstance(fn, (ast.FunctionDef, ast.AsyncFunctionDef)) and fn.name != 'toolpath':
+                for st in ast.walk(fn):
+                    tgs = st.targets if isinstance(st, (ast.Assign, ast.Delete)) else [st.target] if isinstance(st, (ast.AugAssign, ast.AnnAssign)) else []
+                    for tg in tgs:
+                        for n in ast.walk(tg):
+                            if isinstance(n, ast.Attribute) and n.attr in ('_floor_length', '_wall_length'):
+                                ok = (fn.name == '__init__' and isinstance(st, (ast.Assign, ast.AnnAssign)) and isinstance(st.value, ast.Constant)) or \
+                                     (fn.name == 'zigzag' and isinstance(st, ast.AugAssign) and isinstance(st.op, ast.Add) and n.attr == '_floor_length')
+                                if not ok:
+                                    raise Unsupported(f'Trench.{fn.name} stores to self.{n.attr}')
+                for n in ast.walk(fn):
+                    if isinstance(n, ast.Call) and isinstance(n.func, ast.Name) and n.func.id in ('setattr', 'delattr'):
+                        raise Unsupported(f'Trench.{fn.name} uses {n.func.id}')
+        METHODS = {'toolpath': ('generator', [], 'unit')}
+        CFG_ATTRS, STATE_ATTRS, ORACLES = {'block', 'num_insets'}, {}, {}
+        CFG_TYPE, LOCAL_ELT, EXTRA_PARAMS, MONAD = 'tr_cfg Poly', {}, '{Poly : Type} (G : geom Poly) ', 'ML Poly'
+        EXPR_HOOKS, STMT_SKIP, RECEIVERS, STMT_HOOKS = [_h_is_empty, _h_inset, _h_rt_hatch, _h_size, _h_contour], [], {'self'}, [_s_rt]
+        out.append('Notation cfg_block := tr_block.\nNotation cfg_num_insets := tr_num_insets.\n\n')
+        out.append(Tr(cls[0]).method('toolpath').replace('Definition src_toolpath ', 'Definition src_toolpath_len ', 1) + '\n')
+    finally:
+        METHODS, CFG_ATTRS, STATE_ATTRS, ORACLES, CFG_TYPE, LOCAL_ELT, EXTRA_PARAMS, MONAD, EXPR_HOOKS, STMT_SKIP, RECEIVERS, STMT_HOOKS = saved
+    return ''.join(out)
+
 
 def main(argv):
     """py2coq.py <dir of femto sources> <output dir> <group>...   groups: pgm (PgmSrc.v), SrcLp.v, SrcNw.v, SrcTc.v, SrcTr.v"""
@@ -2576,6 +2640,8 @@ def main(argv):
                 name, text = g, translate_transform(str(src_dir))
             elif g == 'SrcWn.v':
                 name, text = g, translate_writer_names(str(src_dir))
+            elif g == 'SrcRt.v':
+                name, text = g, translate_lengths(str(src_dir))
             elif g == 'SrcRp.v':
                 name, text = g, translate_repeat(str(src_dir))
             elif g == 'SrcSs.v':
